@@ -26,7 +26,7 @@ RULE = (
 )
 ASSUMPTIONS = ["R-codec / R-layout are the trusted references", "D is a structure (appending union variants is outside the statement)"]
 MIN_MONITORS = {"container-layout": 1500, "offsets": 3000, "old-to-new": 8000, "new-to-old": 8000, "bitio-subreader": 20000,
-                "bitio-read": 300000}
+                "bitio-read": 300000, "result-mutated": 3000}
 THOROUGH_MIN_SCALE = 8
 
 
@@ -218,6 +218,21 @@ def run_case(ctx, pydsdl, mon, u, i_old, i_new, text_ok, seed, nvalues, workdir)
                 continue
             if not RC.same_value(got, exp):
                 ctx.violation("C14/" + direction, "%s: wrote %r, read %r, expected %r" % (direction, vw, got, exp), c2)
+                continue
+            if rng.random() < 0.35:
+                # the application changes the received object in place (update and republish); the next reception of the same bytes,
+                # and the next object written, are what they were
+                ctx.mon("result-mutated")
+                GV.scramble(got, rng)
+                try:
+                    again = pydsdl.deserialize(Tr, b)
+                    b2 = pydsdl.serialize(Tw, vw)
+                except (pydsdl.Error, ValueError, TypeError, IndexError, KeyError, AttributeError) as ex:
+                    ctx.violation("C14/state-after-mutation", "%s: after the caller changed a received object in place: %r" % (direction, ex), c2)
+                    continue
+                if not RC.same_value(again, exp) or b2 != ref_bytes:
+                    ctx.violation("C14/state-after-mutation", "%s: after the caller changed a received object in place, the same bytes read as %r (expected %r), the same value is written as %s (expected %s)" % (
+                        direction, again, exp, b2.hex(), ref_bytes.hex()), c2)
         ctx.case((GT.universe_sig(u), repr(v_new)), case.get("following", True), classes=[])
 
 
